@@ -43,6 +43,7 @@ type gatedOp struct {
 	done   bool
 	panicV any
 	skip   map[string]bool // gate names that are passed without parking
+	only   map[string]bool // when set: the only gate names at which the op parks
 }
 
 type gateTable struct {
@@ -76,18 +77,43 @@ func hookGate(name string, a, b uint64, s string) {
 	gates.mu.Lock()
 	op := gates.ops[gid]
 	gates.mu.Unlock()
-	if op == nil || op.skip[name] {
+	if op == nil || op.skip[name] || (op.only != nil && !op.only[name]) {
 		return
 	}
 	op.evCh <- gateEv{Name: name, S: s, A: a, B: b}
 	<-op.relCh
 }
 
+// adoptCurrent makes the calling goroutine (started by the code under test) a gated operation that
+// parks at the named gates only. The caller must await() it from the driver goroutine afterwards.
+func adoptCurrent(name string, only ...string) *gatedOp {
+	op := &gatedOp{name: name, evCh: make(chan gateEv), relCh: make(chan struct{}), doneCh: make(chan any, 1), skip: map[string]bool{}, only: map[string]bool{}}
+	for _, o := range only {
+		op.only[o] = true
+	}
+	gid := curGoID()
+	gates.mu.Lock()
+	gates.ops[gid] = op
+	gates.mu.Unlock()
+	return op
+}
+
 // startOp runs fn in a new gated goroutine and waits until it parks or ends.
 func startOp(name string, skip []string, fn func()) *gatedOp {
+	return startOpOnly(name, skip, nil, fn)
+}
+
+// startOpOnly: as startOp; when only is non-empty the op parks at those gates and at no others.
+func startOpOnly(name string, skip, only []string, fn func()) *gatedOp {
 	op := &gatedOp{name: name, evCh: make(chan gateEv), relCh: make(chan struct{}), doneCh: make(chan any, 1), skip: map[string]bool{}}
 	for _, s := range skip {
 		op.skip[s] = true
+	}
+	if len(only) > 0 {
+		op.only = map[string]bool{}
+		for _, o := range only {
+			op.only[o] = true
+		}
 	}
 	ready := make(chan struct{})
 	go func() {
